@@ -15,6 +15,8 @@ use zksync_consensus_roles::validator;
 mod config;
 mod metrics;
 pub mod testonly;
+#[cfg(era_consensus_verif)]
+pub mod verif_hooks;
 mod v2_chonky_bft;
 
 // Renaming network messages for clarity.
